@@ -28,6 +28,7 @@ import (
 	"math/big"
 	"os"
 	"path/filepath"
+	"reflect"
 	"sort"
 	"strings"
 	"time"
@@ -291,6 +292,18 @@ func setDetails(p *linkedca.Provisioner, d string) string {
 	case "none":
 		p.Details = nil
 		return fmt.Sprintf(":%d.!", p.Type)
+	case "k8s", "k8s+id":
+		// a Kubernetes service-account provisioner: its token id does not depend on its name, so a second
+		// one collides with the first; "+id": the request also carries an id of the client's choosing
+		p.Type = linkedca.Provisioner_K8SSA
+		p.Details = &linkedca.ProvisionerDetails{Data: &linkedca.ProvisionerDetails_K8SSA{K8SSA: &linkedca.K8SSAProvisioner{PublicKeys: [][]byte{pubPEM}}}}
+		if d == "k8s+id" {
+			p.Id = "client-chosen-" + p.Name
+		}
+		return fmt.Sprintf(":%d.%d", p.Type, linkedca.Provisioner_K8SSA)
+	case "+id":
+		p.Id = "client-chosen-" + p.Name
+		return fmt.Sprintf(":%d.%d", p.Type, p.Type)
 	case "badclaims":
 		// the right details, but claims the provisioner's Init refuses (the authority does not run ValidateClaims)
 		p.Claims = &linkedca.Claims{X509: &linkedca.X509Claims{Enabled: true, Durations: &linkedca.Durations{Min: "10h", Max: "1h"}}}
@@ -318,6 +331,7 @@ var (
 	rootKey  *ecdsa.PrivateKey
 	jwkPub   []byte
 	jwkKid   string
+	pubPEM   []byte // a PEM public key (K8sSA provisioners need one)
 )
 
 func setup() {
@@ -332,6 +346,9 @@ func setup() {
 	must(err)
 	rootCert, err = x509.ParseCertificate(der)
 	must(err)
+	pkix, err := x509.MarshalPKIXPublicKey(rootKey.Public())
+	must(err)
+	pubPEM = pem.EncodeToMemory(&pem.Block{Type: "PUBLIC KEY", Bytes: pkix})
 	jwk, err := jose.GenerateJWK("EC", "P-256", "ES256", "sig", "", 0)
 	must(err)
 	pub := jwk.Public()
@@ -440,6 +457,8 @@ func dbTok(p *linkedca.Provisioner) string {
 		return "acme/" + p.Name
 	case linkedca.Provisioner_X5C:
 		return "x5c/" + p.Name
+	case linkedca.Provisioner_K8SSA:
+		return provisioner.K8sSAID // every K8sSA provisioner has this one token id, whatever its name
 	case linkedca.Provisioner_JWK:
 		var key jose.JSONWebKey
 		if json.Unmarshal(p.GetDetails().GetJWK().GetPublicKey(), &key) == nil {
@@ -460,7 +479,7 @@ func (w *world) dbDump() string {
 	}
 	dps, _ := w.inner.GetProvisioners(ctx)
 	for _, p := range dps {
-		dP = append(dP, hx(p.Id)+"."+hx(p.Name)+"."+hx(dbTok(p)))
+		dP = append(dP, hx(p.Id)+"."+hx(p.Name)+"."+hx(dbTok(p))+"."+storedPol(p))
 	}
 	return fmt.Sprintf("dA[%s]dP[%s]", strings.Join(dA, ","), sortedJoin(dP))
 }
@@ -653,7 +672,58 @@ func (w *world) allAdmins() ([]*linkedca.Admin, bool) {
 	return out, false
 }
 
-type pv struct{ id, name, tok string }
+type pv struct{ id, name, tok, pol string }
+
+// polTagOf: the tag of the pool policy with these DNS names ("!" for none and for one without names)
+func polTagOf(allow, deny []string, present bool) string {
+	if !present || (len(allow) == 0 && len(deny) == 0) {
+		return "!"
+	}
+	for _, ps := range polPool {
+		if !ps.empty && strings.Join(ps.allow, ",") == strings.Join(allow, ",") && strings.Join(ps.deny, ",") == strings.Join(deny, ",") {
+			return hx(ps.tag)
+		}
+	}
+	return hx("unknown")
+}
+
+// servedPol: the name policy the running provisioner carries (field Options, not part of its JSON)
+func servedPol(p provisioner.Interface) string {
+	v := reflect.ValueOf(p)
+	for v.Kind() == reflect.Ptr || v.Kind() == reflect.Interface {
+		if v.IsNil() {
+			return "!"
+		}
+		v = v.Elem()
+	}
+	if v.Kind() != reflect.Struct {
+		return "!"
+	}
+	f := v.FieldByName("Options")
+	if !f.IsValid() || f.IsNil() {
+		return "!"
+	}
+	opts, ok := f.Interface().(*provisioner.Options)
+	if !ok || opts == nil || opts.GetX509Options() == nil {
+		return "!"
+	}
+	var allow, deny []string
+	present := false
+	if a := opts.GetX509Options().GetAllowedNameOptions(); a != nil {
+		allow, present = a.DNSDomains, true
+	}
+	if d := opts.GetX509Options().GetDeniedNameOptions(); d != nil {
+		deny, present = d.DNSDomains, true
+	}
+	return polTagOf(allow, deny, present)
+}
+
+func storedPol(p *linkedca.Provisioner) string {
+	if p.GetPolicy() == nil {
+		return "!"
+	}
+	return polTagOf(p.GetPolicy().GetX509().GetAllow().GetDns(), p.GetPolicy().GetX509().GetDeny().GetDns(), true)
+}
 
 func (w *world) allProvs() ([]pv, bool) {
 	var out []pv
@@ -661,7 +731,7 @@ func (w *world) allProvs() ([]pv, bool) {
 	for i := 0; i < 300; i++ {
 		l, next, _ := w.auth.GetProvisioners(cur, 100)
 		for _, p := range l {
-			out = append(out, pv{p.GetID(), p.GetName(), p.GetIDForToken()})
+			out = append(out, pv{p.GetID(), p.GetName(), p.GetIDForToken(), servedPol(p)})
 		}
 		if next == "" {
 			return out, true
@@ -701,7 +771,7 @@ func (w *world) dump() (out string) {
 	}
 	pl, _ := w.allProvs()
 	for _, p := range pl {
-		pList = append(pList, hx(p.id)+"."+hx(p.name)+"."+hx(p.tok))
+		pList = append(pList, hx(p.id)+"."+hx(p.name)+"."+hx(p.tok)+"."+p.pol)
 	}
 	das, _ := w.inner.GetAdmins(ctx)
 	sort.Slice(das, func(i, j int) bool { return das[i].Id < das[j].Id })
@@ -710,7 +780,7 @@ func (w *world) dump() (out string) {
 	}
 	dps, _ := w.inner.GetProvisioners(ctx)
 	for _, p := range dps {
-		dP = append(dP, hx(p.Id)+"."+hx(p.Name)+"."+hx(dbTok(p)))
+		dP = append(dP, hx(p.Id)+"."+hx(p.Name)+"."+hx(dbTok(p))+"."+storedPol(p))
 	}
 	dpol, _ := w.inner.GetAuthorityPolicy(ctx)
 	var eng []string
@@ -747,6 +817,9 @@ func (w *world) exec(o Op) (tok, item string) {
 	fin := func() string {
 		if crashed {
 			return "crash#" + w.dump()
+		}
+		if err != nil && os.Getenv("C16_ERR") != "" {
+			fmt.Fprintln(os.Stderr, o.K, "error:", err)
 		}
 		return w.class(err) + "#" + w.dump()
 	}
@@ -828,7 +901,7 @@ func (w *world) exec(o Op) (tok, item string) {
 		} else {
 			w.provIDs = append(w.provIDs, id)
 		}
-		return "sp:" + provFields(id, o.A[0]) + ":" + faultsS(o.F) + polF + detF, fin()
+		return "sp:" + fmt.Sprintf("%s:%s:%s:!:%s", hx(id), hx(o.A[0]), hx(dbTok(p)), hx(sum(id))) + ":" + faultsS(o.F) + polF + detF, fin()
 	case "cp", "mp":
 		ps := polByTag(o.P)
 		if ps == nil {
@@ -861,11 +934,18 @@ func (w *world) exec(o Op) (tok, item string) {
 		if ps := polByTag(o.P); ps != nil {
 			nu.Policy = ps.linked()
 			polF = ":" + ps.field()
+		} else if o.P == "-" {
+			nu.Policy = nil // the update removes the provisioner's policy (how it is done on a stand-alone CA)
 		} else if ps := specOf(nu.Policy); ps != nil {
 			// the record carries the policy stored by an earlier update (f9d8004: the admin database keeps it)
 			polF = ":" + ps.field()
 		}
-		detF := setDetails(nu, o.D)
+		dv := o.D
+		if strings.HasPrefix(dv, "k8s") && nu.Type != linkedca.Provisioner_K8SSA {
+			dv = "" // the type of a stored provisioner cannot be changed (the handler pins it, the database refuses)
+		}
+		detF := setDetails(nu, dv)
+		nu.Id = id // an update addresses its provisioner by id: the "+id" variants are for creation
 		if detF != "" && polF == "" {
 			polF = ":!"
 		}
@@ -960,11 +1040,11 @@ func (w *world) check(o Op, id string, before []*linkedca.Admin, err error) stri
 	p1, p2 := []string{}, []string{}
 	names := map[string]string{}
 	for _, p := range pl {
-		p1 = append(p1, hx(p.id)+"."+hx(p.name))
+		p1 = append(p1, hx(p.id)+"."+hx(p.name)+"."+p.pol) // with the name policy the running provisioner enforces
 		names[p.id] = p.name
 	}
 	for _, p := range dps {
-		p2 = append(p2, hx(p.Id)+"."+hx(p.Name))
+		p2 = append(p2, hx(p.Id)+"."+hx(p.Name)+"."+storedPol(p))
 	}
 	if sortedJoin(p1) != sortedJoin(p2) {
 		return "cache-ne-store:provisioners"
@@ -1220,12 +1300,15 @@ func maybePol(r *c.Rng) string {
 	if r.Chance(1, 4) {
 		return c.Pick(r, polPool).tag
 	}
+	if r.Chance(1, 6) {
+		return "-" // an update without policy: removes the one the record has
+	}
 	return ""
 }
 
 func maybeDet(r *c.Rng) string {
-	if r.Chance(1, 6) {
-		return c.Pick(r, []string{"acme", "oidc", "none", "badclaims", "zeromin", "goodclaims"})
+	if r.Chance(1, 5) {
+		return c.Pick(r, []string{"acme", "oidc", "none", "badclaims", "zeromin", "goodclaims", "k8s", "k8s", "k8s+id", "k8s+id", "+id"})
 	}
 	return ""
 }
@@ -1362,6 +1445,13 @@ func corner() []*Case {
 		{Ops: []Op{{K: "fs", A: []string{"acme:n1", "x5c:n2"}}, {K: "la", N: 5}, {K: "lp", N: 5}, {K: "rs"}}},
 		{Ops: []Op{{K: "fs", A: []string{"acme:n1"}, F: []int{3}}, {K: "rs"}, {K: "la", N: 5}}},
 		{Ops: []Op{{K: "fs", A: []string{}, F: []int{2}}, {K: "rs"}, {K: "la", N: 5}, {K: "rs"}}},
+		// a provisioner policy set, removed by an update without policy, and what later updates and a restart see
+		with(Op{K: "up", A: []string{"@1", "n1"}, P: "nostep"}, Op{K: "up", A: []string{"@1", "n1"}, P: "-"}, Op{K: "sa", A: []string{"step", "n1"}, B: false}, Op{K: "up", A: []string{"@1", "n3"}},
+			Op{K: "rs"}, Op{K: "up", A: []string{"@1", "n1"}}),
+		// token ids that do not depend on the name (K8sSA): the second one is refused, with or without an id of
+		// the client's choosing in the request; an id in the request is replaced by the database's
+		with(Op{K: "sp", A: []string{"n2"}, D: "k8s"}, Op{K: "sp", A: []string{"n3"}, D: "k8s"}, Op{K: "sp", A: []string{"n3"}, D: "k8s+id"}, Op{K: "sp", A: []string{"n4"}, D: "+id"},
+			Op{K: "lp", N: 5}, Op{K: "rs"}, Op{K: "up", A: []string{"@2", "n3"}}, Op{K: "sp", A: []string{"n2"}, D: "k8s+id"}),
 		// claims the provisioner's Init refuses: nothing stored, nothing changed
 		with(Op{K: "sp", A: []string{"n2"}, D: "badclaims"}, Op{K: "up", A: []string{"@0", "n3"}, D: "zeromin"}, Op{K: "up", A: []string{"@0", "n3"}, D: "goodclaims"},
 			Op{K: "sp", A: []string{"n0"}, D: "badclaims"}, Op{K: "rs"}),
